@@ -20,6 +20,9 @@ TRUSTED = ["modelled not verified: numpy element-wise functions, CPython float a
            "hash-set iteration order of source ids (proved irrelevant: C01_perm_invariant)"]
 
 
+LEVEL_TEXT = ("Lean 4 theorems over the formula model whose operator table, derivative table and evaluator fragments are regenerated from operations.py on every run: the value is the formula at the central values, the radicand is exactly the statement's quadratic form over the distinct sources with the exact partial derivatives (C03_diff_correct), independent of the order of the sources; x-x and x/x cancel. Tied to the code by the translator and a differential run over seeded formula DAGs (all operand forms, repeated readings, revised uncertainties); a broken obligation triggers a failing-input search with the proved reference tables.")
+
+
 def correspond(ctx):
     return X.run(ctx, "c01", ctx.n(400, 100000), gen_kwargs={"allow_repeated": True})
 
